@@ -66,7 +66,7 @@ def unhx(s):
 # --------------------------------------------------------------------------
 class Outcome:
     __slots__ = ("violations", "log", "fired", "probes", "nontrivial", "evals",
-                 "sim_time")
+                 "sim_time", "sets")
 
     def __init__(self):
         self.violations = []  # list of (clause, ident, detail)
@@ -76,6 +76,7 @@ class Outcome:
         self.nontrivial = False
         self.evals = 1
         self.sim_time = 0.0
+        self.sets = {}        # name -> set of small hashables (distinct states, interleavings, ...)
 
     def ev(self, *item):
         self.log.append(item)
@@ -213,7 +214,7 @@ def _run_chunk(prop, prop_id, verif_seed, tier, lo, hi, want_digests):
         "runs": 0, "evals": 0, "nontrivial": 0, "digests": set(), "nt_digests": set(),
         "fired": collections.Counter(), "probes": collections.Counter(),
         "violations": [], "samples": [], "sim_time": 0.0, "errors": [],
-        "ordered": [],
+        "ordered": [], "sets": {},
     }
     seen = set()
     for i in range(lo, hi):
@@ -239,6 +240,8 @@ def _run_chunk(prop, prop_id, verif_seed, tier, lo, hi, want_digests):
         agg["fired"].update(out.fired)
         agg["probes"].update(out.probes)
         agg["sim_time"] += out.sim_time
+        for k, v in out.sets.items():
+            agg["sets"].setdefault(k, set()).update(v)
         if want_digests:
             agg["ordered"].append((i, d.hex()))
         if len(agg["samples"]) < 2 and out.nontrivial:
@@ -270,6 +273,8 @@ def _merge(total, part):
     total["probes"].update(part["probes"])
     total["errors"].extend(part["errors"])
     total["ordered"].extend(part["ordered"])
+    for k, v in part["sets"].items():
+        total["sets"].setdefault(k, set()).update(v)
     if len(total["samples"]) < 3:
         total["samples"].extend(part["samples"][: 3 - len(total["samples"])])
     have = {(v["clause"], v["ident"]) for v in total["violations"]}
@@ -287,6 +292,7 @@ def run_batch(prop, tier, verif_seed, runs, workers, want_digests=False,
         "runs": 0, "evals": 0, "nontrivial": 0, "digests": set(), "nt_digests": set(),
         "fired": collections.Counter(), "probes": collections.Counter(),
         "violations": [], "samples": [], "sim_time": 0.0, "errors": [], "ordered": [],
+        "sets": {},
     }
     nchunks = max(1, min(runs, workers * 8))
     bounds = [(runs * k // nchunks, runs * (k + 1) // nchunks) for k in range(nchunks)]
@@ -420,6 +426,8 @@ def _write_evidence(prop, tier, verif_seed, total, wall, workers, nviol, known_p
         "known_findings_printed": sorted(set("%s / %s" % k for k in known_printed)),
         "infra": total["infra"][:10],
     }
+    for k, v in sorted(total["sets"].items()):
+        cov["distinct_" + k] = len(v)
     extra = getattr(prop, "evidence_extra", None)
     if extra:
         cov.update(extra(total))
